@@ -7,6 +7,7 @@ import (
 	"fmt"
 	"math"
 	"math/rand"
+	"os"
 	"runtime"
 	"sort"
 	"sync"
@@ -53,6 +54,7 @@ type cacheRun struct {
 	reads                    map[int]int   // key -> read hits since last write
 	opi                      int
 	inBatch                  bool
+	forceQueue, holding      bool // this trace routes async batches through the ring (drain tokens held by the harness)
 	dead                     bool
 	hits, misses, capN, expN int64
 	ops                      []string
@@ -86,6 +88,8 @@ func policyOf(c kioshun.Config) kioshun.EvictionPolicy {
 func (r *cacheRun) trackCost() bool {
 	return r.conf.MaxCost > 0 || r.conf.CostAdmission != kioshun.CostAdmissionFrequency || r.wmode > 0
 }
+
+var dbgTrace = os.Getenv("VERIF_DBG") != ""
 
 func newCacheRun(m *meta, rng *rand.Rand, tid int, conf kioshun.Config, lst, wmode int, focus string) *cacheRun {
 	r := &cacheRun{m: m, tid: tid, conf: conf, lst: lst, wmode: wmode, focus: focus,
@@ -245,6 +249,11 @@ func (r *cacheRun) step(w *traceWriter, kind opKind, k int, ttl int64, cost int6
 	watch(fmt.Sprintf("trace %d op %d kind %d key %d", r.tid, r.opi, kind, k))
 	defer unwatch()
 	pol := policyOf(r.conf)
+	if r.holding && kind != opSetAsync {
+		r.release()
+	} else if !r.holding {
+		r.waitApplied() // a SetAsync that lost a TryLock to the notifier is queued: let the worker apply it first
+	}
 	pre := r.resident()
 	closed := c.VerifClosed()
 	sh := 0
@@ -408,6 +417,10 @@ func (r *cacheRun) step(w *traceWriter, kind opKind, k int, ttl int64, cost int6
 			r.pending[i] = false
 		}
 	}
+	if dbgTrace {
+		h0, t0, _, _ := c.VerifRingState(0)
+		desc += fmt.Sprintf(" {hold=%v ring0=%d/%d pre=%v}", r.holding, h0, t0, pre)
+	}
 	r.ops = append(r.ops, desc)
 	q := r.quiescent()
 	var notifs []nrec
@@ -551,7 +564,9 @@ func (r *cacheRun) step(w *traceWriter, kind opKind, k int, ttl int64, cost int6
 				r.viol("C03", fmt.Sprintf("unbounded cache dropped %d entries on Set(%d)", removed, k))
 			}
 			if !wasBatch {
-				r.policyCheck(pol, pre, post, k, sh, desc)
+				if !r.forceQueue {
+					r.policyCheck(pol, pre, post, k, sh, desc)
+				}
 			}
 		} else {
 			if len(pre) != len(post) {
@@ -732,6 +747,49 @@ func (r *cacheRun) step(w *traceWriter, kind opKind, k int, ttl int64, cost int6
 	}
 }
 
+// hold takes every shard's drain token so the SetAsync calls of this batch are queued, not applied inline.
+func (r *cacheRun) hold() {
+	if _, _, _, ring := r.c.VerifRingState(0); ring < 8 || r.c.VerifClosed() {
+		return
+	}
+	for i := 0; i < r.nsh; i++ {
+		r.c.VerifHoldDrain(i, true)
+	}
+	r.holding = true
+	r.m.count("queued_batches")
+}
+
+// release hands the tokens back and waits until the workers have applied everything that was queued.
+func (r *cacheRun) release() {
+	r.holding = false
+	for i := 0; i < r.nsh; i++ {
+		r.c.VerifHoldDrain(i, false)
+	}
+	r.waitApplied()
+}
+
+// waitApplied waits until every ring is empty and every drain token free: all accepted writes are applied.
+func (r *cacheRun) waitApplied() {
+	t0 := time.Now()
+	for i := 0; i < r.nsh; i++ {
+		for {
+			h, t, _, _ := r.c.VerifRingState(i)
+			if h == t {
+				if free, _, _, _, _ := r.c.VerifLockState(i); free {
+					break
+				}
+			}
+			if time.Since(t0) > 5*time.Second {
+				for _, p := range []string{"C04", "C07"} {
+					r.viol(p, fmt.Sprintf("writes queued on shard %d were not applied within 5 s of the drain token becoming free", i))
+				}
+				return
+			}
+			runtime.Gosched()
+		}
+	}
+}
+
 func (r *cacheRun) batchTouched(kind opKind) bool {
 	return kind == opSync || kind == opClear || kind == opClose
 }
@@ -747,7 +805,9 @@ func (r *cacheRun) costArg(v int) int64 {
 }
 
 func (r *cacheRun) noteWrite(k, v int, ttl int64, wasRes bool, resVal int) {
-	if old, ok := r.latest[k]; ok && r.state[old] == 0 && wasRes && resVal == old {
+	if old, ok := r.latest[k]; ok && r.state[old] == 0 && r.holding {
+		r.state[old] = 4 // superseded while queued: replaced silently or displaced first, both legitimate
+	} else if ok && r.state[old] == 0 && wasRes && resVal == old {
 		r.state[old] = 1
 	}
 	if !wasRes {
@@ -877,7 +937,7 @@ func (r *cacheRun) pickCost(rng *rand.Rand, k int) int64 {
 func streamCache(o opts, focus string) {
 	rng := newRand(o.seed, "cache"+focus)
 	m := newMeta("cache", o.seed)
-	m.Rule = "API traces (Set, SetAsync batches closed by Sync, Get, GetWithTTL, Exists, Delete, Keys, Clear, Cleanup, clock advances landing on/next to deadlines, Stats, Close last) over a key domain 1.5-4x capacity, policies {LRU,LFU,FIFO,Sieve,default} x shards {1,2,4,8} x MaxSize {0..64} x MaxCost/weigher modes x DefaultTTL x stats x listeners, plus directed prefixes (fill, update all, insert; fill, read oldest; zero-cost floods; cost-growing update of the LRU tail); non-trivial = trace with an eviction, an expiry and an update; distinct by (policy, shards, MaxSize, weigher mode, listeners)"
+	m.Rule = "API traces (Set, SetAsync batches closed by Sync, Get, GetWithTTL, Exists, Delete, Keys, Clear, Cleanup, clock advances landing on/next to deadlines, Stats, Close last) over a key domain 1.5-4x capacity, policies {LRU,LFU,FIFO,Sieve,default} x shards {1,2,4,8} x MaxSize {0..64} x MaxCost/weigher modes x DefaultTTL x stats x listeners, plus directed prefixes (fill, update all, insert; fill, read oldest; zero-cost floods; cost-growing update of the LRU tail); non-trivial = trace with an eviction, an expiry and an update; distinct by (policy, shards, MaxSize, weigher mode, listeners); in every third trace the harness holds the drain tokens during async batches so that the SetAsync calls go through the ring and applyWriteBatch instead of the inline path"
 	w := newTraceWriter(o.out, "cache")
 	for t := 0; t < o.n; t++ {
 		conf, lst, wmode := randCacheConfig(rng, focus)
@@ -887,6 +947,7 @@ func streamCache(o opts, focus string) {
 			lst, wmode = 3, 0
 		}
 		r := newCacheRun(m, rng, t, conf, lst, wmode, focus)
+		r.forceQueue = t%3 == 1 && focus != "C09"
 		w.T(sidCache, r.cfgToks())
 		capTotal := conf.MaxSize
 		if capTotal == 0 {
@@ -959,6 +1020,9 @@ func streamCache(o opts, focus string) {
 			default:
 				// async batch closed by Sync (only writes inside the batch)
 				nb := 1 + rng.Intn(6)
+				if r.forceQueue {
+					r.hold()
+				}
 				for j := 0; j < nb; j++ {
 					kk := rng.Intn(dom)
 					switch y := rng.Intn(10); {
